@@ -146,6 +146,20 @@ CLAIMED["C09"] = (
     "start.. is compared below T::MAX only.",
     "DESIGN §5 C09")
 
+CLAIMED["C12"] = (
+    "TLA+ spec (ParseInt.tla: parse_integer! loop on digit sequences - sign, mandatory first digit, overflow in the "
+    "unsigned twin, MAX_POS/MAX_NEG test - refines PrefixParse for all 12 types) model-checked by TLC; every "
+    "(type,string) vector replayed through Parser::parse_*, StdParser::parse_with (with a base offset) and "
+    "primitive::parse_*; recorded random parses validated exactly by Trace_ParseInt.tla",
+    "Exhaustive within bounds: all token strings of <=3 (thorough 4) tokens over {0,1,2,5,9,-,+,a,space,non-ASCII "
+    "digit}, every value 0..300 (thorough 0..1000) in seven textual forms, and ~600 generated strings around "
+    "MAX / MAX_POS / |MIN| of every width (+-2, leading zeros, extra digit, suffixes), for each of the 12 types "
+    "(44k vectors, 218k comparisons incl. failure-consumes-nothing and offset monitors); bool over 585 strings; "
+    "16k-240k recorded parses of random digit strings up to 45 digits validated exactly (128-bit included).",
+    "Trusted: TLC; digit-sequence arithmetic of ParseIntRef.tla (std-guarded via str::parse on every vector "
+    "without a leading '+'); usize/isize assumed 64-bit.",
+    "DESIGN §5 C12")
+
 NOT_YET = {}
 
 def main():
